@@ -1,6 +1,7 @@
 """C05 -- listings only advertise what the server will serve (link closure)."""
 from __future__ import annotations
 
+import re
 import typing
 
 from vf import common, crawl, driver, reqs, sites, trees, validate
@@ -83,6 +84,15 @@ def crawl_site(chk: Check, site: driver.Site, view: str, kind_of: typing.Dict[by
                     chk.count("info_lines")
                     continue
                 if not e.local:
+                    if fam in ("gopher", "gopherp") and isinstance(e.raw, bytes) and re.match(rb"/?URL:[A-Za-z][A-Za-z0-9+.-]*://", e.raw) \
+                            and not (e.url or b"").startswith(b"gopher://"):
+                        # a URL: item of a Gopher menu points at *this* server, which answers it with a redirect page
+                        # (scheme://... links: web pages, FTP sites -- what url.HTMLURLHandler documents; not mailto:/news:)
+                        v_ = view[:-1] + "+" if (fam == "gopherp" and view.endswith(("!", "$"))) else view
+                        r2, tls2 = reqs.render(v_, e.raw)
+                        todo.append((r2, tls2, crawl.Entry("h", e.name, True, selector=e.raw, raw=e.raw), req[:80]))
+                        chk.count("url_items_followed_through_gopher")
+                        continue
                     chk.count("remote_or_url_links_not_followed")
                     continue
                 if fam == "http" and (e.selector == b"/wap" or e.selector.startswith(b"/wap/")):
@@ -142,6 +152,16 @@ def extra_names(rng, model: sites.SiteModel) -> None:
         model.add(b"/" + n.encode(), "doc", None, tags=["file", "extra", "mbox-with-separator"])
     model.add(b"/in|out", "menu", tags=["dir", "extra"])
     t.subtree("mail|dir", trees.maildir_tree(["Sep maildir"], where="cur"))
+    # names at the file system's length limit: the mailbox is fine, a *virtual* selector built on it is longer than
+    # any file name may be (the look-up of 'name|/MBOX-MESSAGE/1' as a path fails with ENAMETOOLONG, not ENOENT)
+    t.file("L" * 250 + ".mbox", mb)
+    t.subtree("M" * 255, trees.maildir_tree(["Long maildir"], where="cur"))
+    # a healthy directory that also holds something whose inspection fails with an unusual errno (ELOOP)
+    t.file("looped/one.txt", "one\n")
+    t.symlink("looped/self", "self")
+    t.symlink("looped/a", "b")
+    t.symlink("looped/b", "a")
+    model.add(b"/looped", "menu", tags=["dir", "extra"])
     # a legal path whose percent-encoded URL is longer than 8 KB (non-ASCII names triple in length)
     deep = "/".join(["\u00e9" * 100 + str(i) for i in range(14)])
     t.file(deep + "/bottom.txt", "bottom of the deep tree\n")
